@@ -104,6 +104,10 @@ func (sc *Scheduler) Schedule(ctx context.Context, g *ExecutionGraph, done chan 
 
 	var wg = sync.WaitGroup{}
 
+	// The lifecycle handlers must run even after the DAG timeout has expired,
+	// so they get the context without the timeout.
+	handlerCtx := ctx
+
 	var cancel context.CancelFunc
 	if sc.timeout > 0 {
 		ctx, cancel = context.WithTimeout(ctx, sc.timeout)
@@ -265,7 +269,7 @@ func (sc *Scheduler) Schedule(ctx context.Context, g *ExecutionGraph, done chan 
 			n.data.Step.OutputVariables = g.outputVariables
 			n.mu.Unlock()
 
-			if err := sc.runHandlerNode(ctx, n); err != nil {
+			if err := sc.runHandlerNode(handlerCtx, n); err != nil {
 				sc.setLastError(err)
 			}
 			if done != nil {
